@@ -517,4 +517,113 @@ example : ∃ items raw,
     .hole { spec := { align := .right, width := 3 }, specEmpty := false }, .lit "</u>".toList],
    _, rfl, rfl, by decide, rfl⟩
 
+/-! ### `HTML(tmpl) % args` -/
+
+/-- every conversion that is reached is a plain `%s` / `%c`: no width, no precision (with them `%`
+    pads / cuts the ESCAPED text: the known finding), no `%r` / `%a` (they show the repr of the
+    escaped text, quotes included) -/
+def PlainHoles : List PItem → Prop
+  | [] => True
+  | .hole s :: r => s.width = 0 ∧ s.prec = none ∧ (s.conv = .s ∨ s.conv = .c) ∧ PlainHoles r
+  | _ :: r => PlainHoles r
+
+/-- the template with the raw `str()` of each argument in its hole -/
+def rawPercent : List Val → List PItem → List Seg
+  | args, .lit t :: r => .lit t :: rawPercent args r
+  | v :: args, .hole _ :: r => .val v.s :: rawPercent args r
+  | _, _ => []
+
+theorem fillPercent_lit (pr : Char → Bool) (args : List Text) (t : Text) (rest : List PItem) :
+    fillPercent pr args (.lit t :: rest) =
+      match fillPercent pr args rest with
+      | .ok r => .ok (.lit t :: r)
+      | .error e => .error e := by
+  cases args <;> rfl
+
+theorem pfmtStr_plain (t : Text) (s : PSpec) (hw : s.width = 0) (hp : s.prec = none) :
+    pfmtStr t s = t := by
+  unfold pfmtStr; simp only [hp, hw]; split <;> simp
+
+theorem fillPercent_plain (esc : Text → Text) (pr : Char → Bool) (args : List Val)
+    (items : List PItem) (segs : List Seg) (hpl : PlainHoles items)
+    (h : fillPercent pr (args.map fun v => esc v.s) items = .ok segs) :
+    segs = escVals esc (rawPercent args items) := by
+  induction items generalizing args segs with
+  | nil => cases args <;> simp [fillPercent] at h; subst h; simp [rawPercent, escVals]
+  | cons it rest ih =>
+    cases it with
+    | lit t =>
+      rw [fillPercent_lit] at h
+      cases hr : fillPercent pr (args.map fun v => esc v.s) rest with
+      | error e => simp [hr] at h
+      | ok r =>
+        simp [hr] at h; subst h
+        have hraw : rawPercent args (.lit t :: rest) = .lit t :: rawPercent args rest := by
+          cases args <;> simp [rawPercent]
+        rw [hraw]; simp [escVals, ih args r hpl hr]
+    | hole sp =>
+      obtain ⟨hw, hp, hc, hrest⟩ := hpl
+      cases args with
+      | nil => simp [fillPercent] at h
+      | cons v vs =>
+        simp only [List.map_cons, fillPercent] at h
+        cases hcv : convArg pr sp.conv (esc v.s) with
+        | error e => simp [hcv] at h
+        | ok t =>
+          have ht : t = esc v.s := by
+            rcases hc with hc | hc
+            · rw [hc] at hcv; simp [convArg] at hcv; exact hcv.symm
+            · rw [hc] at hcv; simp only [convArg] at hcv
+              split at hcv
+              · simp at hcv; exact hcv.symm
+              · simp at hcv
+          simp only [hcv] at h
+          cases hr : fillPercent pr (vs.map fun v => esc v.s) rest with
+          | error e => simp [hr] at h
+          | ok r =>
+            simp [hr] at h; subst h
+            simp [rawPercent, escVals, pfmtStr_plain _ _ hw hp, ht, ih vs r hrest hr]
+    | typeErr => cases args <;> simp [fillPercent] at h
+    | badChar => cases args <;> simp [fillPercent] at h
+    | incomplete => cases args <;> simp [fillPercent] at h
+
+/-- **`HTML(tmpl) % args`** for a tuple of ANY values (strings, numbers, objects; each reaches `%`
+    as its escaped `str()`): either the rendering is an error and the call raises
+    (`htmlMod_raises`), or — conversions plain `%s` / `%c`, holes in content position — the document
+    handed to the XML parser is the template with `html_escape(str(v))` in each hole, and it is
+    tokenized as the template's own events with one text event per character of each value. -/
+theorem htmlMod_inert (pr : Char → Bool) (tmpl : Text) (args : List Val) (items : List PItem)
+    (segs : List Seg)
+    (hscan : scanPercent tmpl = some (.ok items)) (hpl : PlainHoles items)
+    (hfill : fillPercent pr (args.map fun v => htmlEscape v.s) items = .ok segs)
+    (hg : HHolesOK (.content false 0) (rawPercent args items)) :
+    pformat htmlEscape pr tmpl args = some (.ok (hflat (rawPercent args items))) ∧
+    xrun (.content false 0) (hflat (rawPercent args items)) =
+      xsplice (.content false 0) (rawPercent args items) := by
+  refine ⟨?_, xrun_template_inert _ _ hg⟩
+  have := fillPercent_plain htmlEscape pr args items segs hpl hfill
+  simp [pformat, hscan, renderPercent_eq_fill, hfill, Except.map, this, flat_escVals]
+
+theorem htmlMod_raises (pr : Char → Bool) (tmpl : Text) (args : List Val) (items : List PItem)
+    (e : Err) (hscan : scanPercent tmpl = some (.ok items))
+    (hfill : fillPercent pr (args.map fun v => htmlEscape v.s) items = .error e)
+    (fs : Frags) (hfs : html tmpl = .ok fs) :
+    htmlMod pr tmpl args = .ok (some (.error e)) := by
+  simp [htmlMod, hfs, pformat, hscan, renderPercent_eq_fill, hfill, Except.map]
+
+/-- the seeded scenario: a number under `%d` next to a hostile string under `%s`.  As the code is
+    (escape first, then `%`), `%d` sees the STRING "3": TypeError — the hostile string is never
+    interpolated unescaped. -/
+example : htmlMod exPr "<b>%d</b> items: %s".toList
+    [{ kind := .num, s := "3".toList, r := "3".toList }, { s := "<i>x</i>".toList }] =
+    .ok (some (.error .type)) := by rfl
+
+example : htmlMod exPr "<b>%s</b> items: %c%5r".toList
+    [{ kind := .num, s := "3".toList, r := "3".toList }, { s := "&".toList }, { s := "<".toList }] =
+    .ok (some (.error .type)) ∧
+    htmlMod exPr "<b>%s</b>: %s%%".toList
+    [{ kind := .num, s := "3".toList, r := "3".toList }, { s := "</b>".toList }] =
+    .ok (some (.ok (.ok [⟨"class:b".toList, "3".toList, none⟩, ⟨[], ": </b>%".toList, none⟩]))) := by
+  refine ⟨by rfl, by rfl⟩
+
 end Ptk.C18
